@@ -144,4 +144,25 @@ theorem framewise_load_balancing_tears_messages :
     ((Fw.run { holdsParts := false, limit := 253 } { peers := 2 }
       [.send ⟨true, 0, 0⟩, .send ⟨true, 0, 1⟩, .send ⟨false, 0, 2⟩]).got.map (·.1)) = [0, 1, 0] := by decide
 
+/-- … and, as long as no message is discarded for being over-long, every frame the application gave is routed or still
+held exactly once: nothing is duplicated, nothing is lost, whatever mix of frame-wise sends and send_multipart calls -/
+theorem push_keeps_every_frame_exactly_once (peers : Nat) (evs : List FwEv)
+    (h : (Fw.run currentFwCfg { peers := peers } evs).errors = 0) :
+    (Fw.run currentFwCfg { peers := peers } evs).out.Perm (fwGiven evs) := by
+  rw [push_source_shape] at h ⊢
+  simpa [Fw.out] using Fw.out_run 253 evs { peers := peers } h
+
+/-- … and whole messages are handed to the peers strictly in turn: the i-th message goes to peer i mod peers -/
+theorem push_serves_peers_in_turn (peers : Nat) (evs : List FwEv) (i : Nat)
+    (hi : i < (Fw.run currentFwCfg { peers := peers } evs).got.length) :
+    ((Fw.run currentFwCfg { peers := peers } evs).got[i]).1 = i % max peers 1 := by
+  have := Fw.rr_run currentFwCfg evs { peers := peers } 0 ⟨by simp, by simp⟩
+  simpa [this.1] using this.2.2 i hi
+
+/-- non-vacuity: an interleaved history with three peers, nothing discarded -/
+example :
+    let s := Fw.run currentFwCfg { peers := 3 }
+      [.send ⟨true, 0, 0⟩, .sendMultipart [⟨false, 1, 0⟩, ⟨false, 1, 1⟩], .send ⟨false, 0, 1⟩, .send ⟨false, 2, 0⟩]
+    s.errors = 0 ∧ s.got.map (·.1) = [0, 1, 2] ∧ s.out = [(1, 0), (1, 1), (0, 0), (0, 1), (2, 0)] := by decide
+
 end Rzmq.C02
